@@ -76,7 +76,8 @@ def run(ctx):
         ctx.judge('R1', 'iteration set honours the step sign')
     # ---- R3
     subs = [c for c in ast.walk(vl.node) if isinstance(c, ast.ListComp) and 'SubstituteExpressions' in ast.unparse(c)]
-    ok = subs and all('SubstituteExpressions({o.variable: sym.IntLiteral(i)}).visit(o.body) for i in unroll_range' in ast.unparse(c) for c in subs)
+    ok = subs and all(ast.unparse(c.elt) == 'SubstituteExpressions({o.variable: sym.IntLiteral(i)}).visit(o.body)'
+                      and ast.unparse(c.generators[0].iter) == 'unroll_range' and not c.generators[0].ifs for c in subs)
     (ctx.judge('R3', 'one substituted body per iteration', facts={'sites': len(subs)}) if ok else
      ctx.violation('R3', 'LoopUnrollTransformer.visit_Loop:copies', vl.where, 'unrolled copies are not one substituted body per enumerated iteration'))
     # ---- R2
